@@ -38,11 +38,11 @@ def Writable (K : Consts) (ts : TypeSystem) : Prop :=
 instance (K : Consts) (ts : TypeSystem) : Decidable (Writable K ts) := by
   unfold Writable; infer_instance
 
-/-- no feature name starts with `%`: in a `%TYPES` entry the feature declarations share one JSON object with the reserved keys
-    `%NAME`, `%SUPER_TYPE`, `%DESCRIPTION`, and the reader skips every key that starts with `%` (a feature `%foo` is lost, a
-    feature `%DESCRIPTION` is read as the type's description, a feature `%NAME` makes `to_json` raise).  The model keeps such
-    features apart from the reserved keys, i.e. it is NOT faithful to the code there; the hypothesis keeps the theorem inside
-    the region where model and code were compared. -/
+/-- no feature name starts with `%`: in a `%TYPES` entry the feature declarations share one JSON object with the reserved
+    keys `%NAME`, `%SUPER_TYPE`, `%DESCRIPTION`, and the reader skips every key that starts with `%` (a feature `%foo` is
+    lost, a feature `%DESCRIPTION` is read as the type's description, a feature `%SUPER_TYPE` makes the reader raise, a
+    feature `%NAME` makes `to_json` raise).  The model follows the code there (`renderTypeDecl`, `renderTypeDecls`,
+    `loadEmbeddedTs`; evaluated in `Proofs/EmbeddedTsPctDemo.lean`); `json_full_ts_same` needs the hypothesis. -/
 def NoPercentNames (ts : TypeSystem) : Prop :=
   ∀ t ∈ ts.types, ∀ f ∈ t.own, f.name.startsWith "%" = false
 
